@@ -23,6 +23,15 @@ CHECKS = {
          "font must map every selector glyph to the denoted output glyph, and the pass FSM must be certified (C02 theorem) against exactly those memberships."),
    note=TB + "Cls.lookup abstracts the engine's binary search; class references denote the final value of the referenced class (late binding).",
    design="4/C04"),
+ "C08": dict(
+   technique="Lean checkers for sfnt container/preservation/name records run on real output and on recompilation chains + Lean theorems on the checksum word-sum (additivity over aligned parts, zero padding)",
+   text=("Proof: wordSum_append / wordSum_pad / wordSum_zeros — the sfnt checksum of a file is the sum (mod 2^32) of the checksums of its 4-byte-aligned zero-padded parts, so the per-table "
+         "and whole-file (0xB1B0AFBA) conditions evaluated by the checker are the ones the format defines. The executable Lean checkers decide, on the real output bytes, every structural clause "
+         "of the property: search header, directory strictly sorted, alignment, bounds, pairwise disjointness, every table checksum (head with zeroed adjustment), file checksum; every non-name "
+         "non-Graphite table byte-identical to the input (head apart from checkSumAdjustment); name records preserved apart from the family-derived ids when renaming; new records only with "
+         "fresh ids >= 256; exactly one of each Graphite table. Histories: 3-generation chains (g2 tables = g1 tables for Silf/Glat/Gloc/Sill, g3 = g2 byte for byte) and compile(P, compile(Q, F))."),
+   note=TB + "The byte-level model `assemble` of the copy loop is not yet proved; container validity is decided per output font (translation-validation style), input fonts are sampled (generated variants + suite fonts).",
+   design="4/C08"),
  "C06": dict(
    technique="Lean 4 theorems (padding alignment, start-of-text firing, trial order) + their hypotheses evaluated on decoded real output",
    text=("Proof: Grc.Prec.padding_preserves_match (for every glyph string and scan position the ANY-padded rule matches iff the rule as written "
